@@ -2,7 +2,7 @@
 import ast
 from ..affine import Lin, decide, entails
 from ..front import dotted, const_value, unparse, walk_no_nested, parent_map, kwarg
-from ..core import holds, violation, unrecognised
+from ..core import holds, violation, unrecognised, named
 from ..flow import AbsInt
 from ..rules import decide_states, fmt_trace, relevant_guards, module_state_rule, loop_headers_rule
 
@@ -419,7 +419,7 @@ def strand_rules(repo):
         if not uses:
             out.append(violation("R-SIB", f, role, "reverse-strand hits are never counted", n))
         elif unguarded:
-            out.append(violation("R-SIB", f, role, "`hits[i + n_]` is read without testing reverse_complement (IndexError / wrong motif when False)", unguarded[0]))
+            out.append(named("R-SIB", f, role, "`hits[i + n_]` is read without testing reverse_complement (IndexError / wrong motif when False)", unguarded[0]))
         else:
             out.append(holds("R-SIB", f, role, "hits[i + n_] only under `if reverse_complement`", n))
     role = "dim=1 regroups the same hit rows by sequence (no rows added or dropped)"
